@@ -271,25 +271,65 @@ def h_many_sections(ctx):
     img = Image(cls, little, machine=MACH['X86_64'])
     img.section('', sh_type=0)
     marks = {0xfeff: '.below', 0xff00: '.lo', 0xff01: '.lo1', 0xfff1: '.abs', 0xffff: '.hi', 0x10000: '.over', n - 1: '.last'}
+    # section 0xffff is a string table of its own; a symbol table, a version definition section, a version requirement section
+    # and a dynamic section name it in sh_link - the value the FILE HEADER uses as the escape for its name-table index
+    histr = [0] + [ord(c) for c in 'sym_hi'] + [0] + [ord(c) for c in 'ver_hi'] + [0]
+    hioff = img.blob(histr)
+    symoff = img.blob(L.encode('SYM', cls, little, {}) + L.encode('SYM', cls, little, dict(st_name=1, st_info=0x12, st_shndx=1)), align=8)
+    vdoff = img.blob(L.encode('VERDEF', cls, little, dict(vd_version=1, vd_ndx=2, vd_cnt=1, vd_aux=20, vd_next=0)) + L.encode('VERDAUX', cls, little, dict(vda_name=8)), align=4)
+    vnoff = img.blob(L.encode('VERNEED', cls, little, dict(vn_version=1, vn_cnt=1, vn_file=1, vn_aux=16, vn_next=0)) +
+                     L.encode('VERNAUX', cls, little, dict(vna_other=3, vna_name=8)), align=4)
+    dynoff = img.blob(L.encode('DYN', cls, little, dict(d_tag=1, d_val=8)) + L.encode('DYN', cls, little, dict(d_tag=0, d_val=0)), align=8)
+    symsz, dynsz = L.sizeof('SYM', cls), L.sizeof('DYN', cls)
+    special = {
+        0xffff: dict(sh_type=3, sh_offset=hioff, sh_size=len(histr)),
+        3: dict(sh_type=2, sh_offset=symoff, sh_size=2 * symsz, sh_entsize=symsz, sh_link=0xffff, sh_info=1),
+        4: dict(sh_type=0x6ffffffd, sh_offset=vdoff, sh_size=28, sh_link=0xffff, sh_info=1),
+        5: dict(sh_type=0x6ffffffe, sh_offset=vnoff, sh_size=32, sh_link=0xffff, sh_info=1),
+        6: dict(sh_type=6, sh_offset=dynoff, sh_size=2 * dynsz, sh_entsize=dynsz, sh_link=0xffff),
+    }
     for i in range(1, n):
-        img.section(marks.get(i, ''), sh_type=8, sh_offset=i, sh_size=i & 0xff)
+        if i in special:
+            img.section(marks.get(i, ''), **special[i])
+        else:
+            img.section(marks.get(i, ''), sh_type=8, sh_offset=i, sh_size=i & 0xff)
     stridx = img.add_shstrtab(index_field=False)
     img.sections[0]['sh_link'] = stridx
     img.sections[0]['sh_size'] = n + 1
     data = img.build(e_shstrndx=0xffff, e_shnum=0)
     elf = EF.ELFFile(ctx.stream(data))
     ctx.outcome('ok')
+    if cfg.get('links_first'):
+        _many_links(ctx, elf)
     ctx.check_eq('many/num_sections', elf.num_sections(), n + 1)
     got = [(s.name, s['sh_offset']) for s in elf.iter_sections()]
     ctx.check_eq('many/iter_sections/count', len(got), n + 1)
-    ctx.check_eq('many/iter_sections/in-file-order', [o for _, o in got[1:n]], list(range(1, n)))
+    ctx.check_eq('many/iter_sections/in-file-order', [o for i, (_, o) in enumerate(got[1:n], 1) if i not in special], [i for i in range(1, n) if i not in special])
     for i, nm in sorted(marks.items()):
         if i < len(got):
             ctx.check_eq('many/enumerated-name/%#x' % i, got[i][0], nm)
         ctx.check_eq('many/get_section/%#x' % i, elf.get_section(i).name, nm)
         ctx.check_eq('many/get_section_index/%s' % nm, elf.get_section_index(nm), i)
         s = elf.get_section_by_name(nm)
-        ctx.check('many/get_section_by_name/%s' % nm, s is not None and s['sh_offset'] == i)
+        ctx.check('many/get_section_by_name/%s' % nm, s is not None and s['sh_offset'] == (special[i]['sh_offset'] if i in special else i))
+    _many_links(ctx, elf)
+
+
+def _many_links(ctx, elf):
+    """sh_link = 0xffff designates section 0xffff (sh_link is a full word: no escape value), whatever the file header's name-table field holds"""
+    symtab = elf.get_section(3)
+    ctx.check_eq('many/sh_link=0xffff/symbol-table/type', type(symtab).__name__, 'SymbolTableSection')
+    ctx.check_eq('many/sh_link=0xffff/symbol-table/name-of-symbol', symtab.get_symbol(1).name, 'sym_hi')
+    ctx.check('many/sh_link=0xffff/symbol-table/by-name', bool(symtab.get_symbol_by_name('sym_hi')))
+    vd = elf.get_section(4)
+    ctx.check_eq('many/sh_link=0xffff/verdef/type', type(vd).__name__, 'GNUVerDefSection')
+    ctx.check_eq('many/sh_link=0xffff/verdef/names', [[a.name for a in auxs] for _, auxs in ((v, list(it)) for v, it in vd.iter_versions())], [['ver_hi']])
+    vn = elf.get_section(5)
+    ctx.check_eq('many/sh_link=0xffff/verneed/type', type(vn).__name__, 'GNUVerNeedSection')
+    ctx.check_eq('many/sh_link=0xffff/verneed/names', [(v.name, [a.name for a in it]) for v, it in vn.iter_versions()], [('sym_hi', ['ver_hi'])])
+    dyn = elf.get_section(6)
+    ctx.check_eq('many/sh_link=0xffff/dynamic/type', type(dyn).__name__, 'DynamicSection')
+    ctx.check_eq('many/sh_link=0xffff/dynamic/needed', [t.needed for t in dyn.iter_tags() if t.entry.d_tag == 'DT_NEEDED'], ['ver_hi'])
 
 
 # ------------------------------------------------------------------ H1.4 type -> object kind
@@ -495,7 +535,7 @@ HARNESSES = [
       bounds={'all': 'all 2^32 type codes per table'}),
     H('h1_5_long_names', h_long_names, lambda tier: [dict(elfclass=c, little=l, lengths=ln) for c, l in ENVS[1:3] for ln in ([64], [63, 64, 65], [128, 200, 64], [192])], expect=('ok',), decoy=-1,
       desc='section names whose length is around and at multiples of 64 characters: enumeration and lookups by name (ground)'),
-    H('h1_6_many_sections', h_many_sections, lambda tier: [dict(elfclass=32, little=True, n=0x10003)], expect=('ok',), decoy=-1,
+    H('h1_6_many_sections', h_many_sections, lambda tier: [dict(elfclass=32, little=True, n=0x10003), dict(elfclass=64, little=False, n=0x10001, links_first=True)], expect=('ok',), decoy=-1,
       desc='65540 sections (e_shnum = 0, e_shstrndx = SHN_XINDEX): every entry of the table is enumerated in file order, also those whose index lies in the '
            'reserved range 0xff00..0xffff or beyond 0xffff; lookups by index and by name agree with the enumeration (ground instance)'),
     H('h1_3_tables', h_tables, _tables_instances, expect=('ok',),
